@@ -13,7 +13,7 @@ Definition m4 (a b c d : Z) : c4 := {| cn := a; ch := b; cw := c; cc := d |}.
 (* (1) a read offset along the height (SPLIT / STRIDED_SLICE along H fused into a padded or strided consumer):
    3x3 stride-1 SAME convolution reading rows [4,10) of a 16-row tensor.  transform_with_strides_and_skirt clips the
    rows to [0,16), not to the window: the un-split operator gets rows [3,11) with top padding 1, so OFM row 0, tap 1
-   reads row 3 where the operator (first row of the window) has row 4, and tap 0 is "padding" although ... *)
+   reads row 3 where the operator (first row of its window) has row 4 *)
 Lemma read_offset_height_refuted_lemma :
   exists (i : tf_in) ib pt pb,
     t_split i = Some (m4 0 4 0 0, m4 1 6 16 8) /\
